@@ -187,14 +187,13 @@ func (s *Service) Write(ctx context.Context, tags string, lit model.Iterator, no
 	var we WriteEvent
 	weInit := false
 
-	if !noEvent {
-		// the write event of records stored earlier must not be published later (a pipe takes the start of the
-		// first event it sees of a partition as its starting point there)
-		l, _ := s.wrLocks.LoadOrStore(src, &sync.Mutex{})
-		mu := l.(*sync.Mutex)
-		mu.Lock()
-		defer mu.Unlock()
-	}
+	// the write event of records stored earlier must not be published later (a pipe takes the start of the first event
+	// it sees of a partition as its starting point there), and the positions told to the time index must be the
+	// writer's own: writers that publish no event (pipe workers) take the lock too
+	l, _ := s.wrLocks.LoadOrStore(src, &sync.Mutex{})
+	mu := l.(*sync.Mutex)
+	mu.Lock()
+	defer mu.Unlock()
 
 	for {
 		n, pos, err1 := jrnl.Write(ctx, &iw)
